@@ -38,6 +38,14 @@ def wl_bloom_pairs(ctx, rng, case):
         a, b = rng.sample(kinds, 2)
         hname, hf = gen.pick_hash(rng, keys, kind=a)
         hname2, hf2 = gen.pick_hash(rng, keys, kind=b)
+        if k >= 2 and rng.random() < 0.5:
+            # two strategies that AGREE on part of the probe key's hashes: same first value only, or same everywhere except the last
+            # value the filter uses - still different hash functions (they differ on the library's probe key at the filter's depth)
+            mode = rng.choice(["first_only", "all_but_last"])
+            hname2, hf2 = f"{hname}+{mode}", gen.DerivedHash(hf, mode, depth_at=k)
+            if rng.random() < 0.5:
+                hname, hf, hname2, hf2 = hname2, hf2, hname, hf
+            ctx.count("hash_pairs_sharing_part_of_the_probe_hashes")
     disk = (rng.random() < 0.3, rng.random() < 0.3)
     case.desc = {"kind": "bloom", "compat": compat_kind, "a": (est, rate, hname), "b": (est2, rate2, hname2), "on_disk": disk}
     ctx.observe("pair_kinds", compat_kind)
@@ -113,6 +121,13 @@ def wl_bloom_pairs(ctx, rng, case):
                 ctx.count("identical_pairs_checked")
             ctx.check(A.jaccard_index(A) == 1.0, "Jaccard index of a filter with itself is not 1.0")
             ctx.count("compatible_pairs_checked")
+            # the result owns its storage: writing to it must not reach an operand
+            u1 = results["union"][0]
+            for res in (i1, u1):
+                if res is not None and res.elements_added >= 0:
+                    res.add("only-in-the-result")
+                    ctx.check(snap(A, pa) == sa and snap(B, pb) == sb, "adding to the result of a set operation changed an operand (shared storage)")
+                    ctx.count("aliasing_checks")
         # foreign operands
         for foreign in (1, "x", None, [1], P.CountMinSketch(width=2, depth=2), P.CuckooFilter(capacity=2)):
             for name in ("intersection", "union", "jaccard_index"):
@@ -150,6 +165,10 @@ def wl_counting_pairs(ctx, rng, case):
         a, b = rng.sample(["default_fnv_1a", "default_md5", "default_sha256", "decorated_int_sha512"], 2)
         hname, hf = gen.pick_hash(rng, keys, kind=a)
         hname2, hf2 = gen.pick_hash(rng, keys, kind=b)
+        if k >= 2 and rng.random() < 0.5:
+            mode = rng.choice(["first_only", "all_but_last"])
+            hname2, hf2 = f"{hname}+{mode}", gen.DerivedHash(hf, mode, depth_at=k)
+            ctx.count("hash_pairs_sharing_part_of_the_probe_hashes")
     case.desc = {"kind": "counting", "compat": compat_kind, "a": (est, rate, hname), "b": (est2, rate2, hname2)}
     ctx.observe("pair_kinds", "counting-" + compat_kind)
     A = P.CountingBloomFilter(est, rate, **bl.kw_hash(hf))
@@ -223,6 +242,10 @@ def wl_sketch_pairs(ctx, rng, case):
         a, b = rng.sample(["default_fnv_1a", "default_md5", "default_sha256", "decorated_int_sha512", "decorated_bytes_blake2b"], 2)
         hname, hf = gen.pick_hash(rng, keys, kind=a)
         hname2, hf2 = gen.pick_hash(rng, keys, kind=b)
+        if d >= 2 and rng.random() < 0.5:
+            mode = rng.choice(["first_only", "all_but_last"])
+            hname2, hf2 = f"{hname}+{mode}", gen.DerivedHash(hf, mode, depth_at=d)
+            ctx.count("hash_pairs_sharing_part_of_the_probe_hashes")
     case.desc = {"kind": "sketch", "compat": kind, "a": (ca.__name__, w, d, hname), "b": (cb.__name__, w2, d2, hname2)}
     ctx.observe("pair_kinds", "sketch-" + kind)
     A = ca(width=w, depth=d, **bl.kw_hash(hf))
@@ -266,5 +289,6 @@ PROP = Prop(
     assumptions=["compatibility is decided from the public number_bits / number_hashes and from whether the same strategy object was supplied; "
                  "'different hash function' pairs are two different strategies of the zoo (they differ on every key, including the library's probe key)",
                  "mixing a counting with a plain Bloom filter is outside the claim and not generated"],
-    required=["compatible_pairs_checked", "incompatible_pairs_checked", "immutability_checks", "foreign_type_rejections", "identical_pairs_checked"],
+    required=["compatible_pairs_checked", "incompatible_pairs_checked", "immutability_checks", "foreign_type_rejections", "identical_pairs_checked",
+              "hash_pairs_sharing_part_of_the_probe_hashes"],
 )
